@@ -37,6 +37,11 @@ CHECKS = {
                      "complete file's provenance. Writer side (write-sequence prefixes incl. in-place patches) is covered by the writer harness items "
                      "when present in the evidence. Bounded model checking.",
                 design='DESIGN.md 7/C18'),
+    'C15': dict(text="Histories of 2 (all ordered pairs of nine read methods) and selected 3 operations with symbolic arguments run on real reader "
+                     "objects (one reader, a second reader, a closed first reader, the emulator's seven readers on one handle, preload, chunk cache 1/2/"
+                     "default) over one symbolic conforming file; the lru_cache contract is modelled, all other cache state is the repo's own code. z3 "
+                     "shows on every path that the last result meets the absolute spec oracle, i.e. equals a fresh reader's. Bounded model checking.",
+                design='DESIGN.md 7/C15'),
 }
 
 NOT_YET = "check not built yet in this session (work in progress; see DESIGN.md section 11 build order)"
